@@ -1,4 +1,9 @@
 import collections
+import contextvars
+
+# Resources dequed for the evaluation executed by the current asyncio task. Each evaluation runs
+# in its own task, therefore in its own context: the value set for a job is never seen by another.
+_DEQUED = contextvars.ContextVar("dequed")
 
 
 def queued(evaluator_class):  # noqa: D417
@@ -22,9 +27,20 @@ def queued(evaluator_class):  # noqa: D417
         self.queue = collections.deque(queue[:])
         self.queue_pop_per_task = queue_pop_per_task
 
+    def get_run_function_kwargs(self):
+        # The static keyword arguments plus the resources dequed for the job of the current task.
+        run_function_kwargs = dict(self._run_function_kwargs)
+        dequed = _DEQUED.get(None)
+        if dequed is not None:
+            run_function_kwargs["dequed"] = dequed
+        return run_function_kwargs
+
+    def set_run_function_kwargs(self, run_function_kwargs):
+        self._run_function_kwargs = run_function_kwargs
+
     async def execute(self, job):
         dequed = [self.queue.popleft() for _ in range(self.queue_pop_per_task)]
-        self.run_function_kwargs["dequed"] = dequed
+        _DEQUED.set(dequed)
 
         job = await evaluator_class.execute(self, job)
         job.metadata["dequed"] = ",".join((str(item) for item in dequed))
@@ -33,7 +49,11 @@ def queued(evaluator_class):  # noqa: D417
 
         return job
 
-    cls_attrs = {"__init__": __init__, "execute": execute}
+    cls_attrs = {
+        "__init__": __init__,
+        "execute": execute,
+        "run_function_kwargs": property(get_run_function_kwargs, set_run_function_kwargs),
+    }
 
     queued_evaluator_class = type(
         f"Queued{evaluator_class.__name__}", (evaluator_class,), cls_attrs
